@@ -22,7 +22,7 @@ def run(tier):
         c.add_tlc(r, nm)
         beh += r.behaviours
     if not quick:
-        sim = tlc.run("Plume.tla", "Plume_sim.cfg", workers=8, timeout=1200, simulate=3000, depth=4, seed=c.seed)
+        sim = tlc.run("Plume.tla", "Plume_sim.cfg", workers=8, timeout=1200, simulate=30, depth=4, seed=c.seed)
         c.add_tlc(sim, "plume tables with 3 sections (simulation)")
         beh += sim.behaviours
     beh = list(dict.fromkeys(beh))
